@@ -8,6 +8,6 @@ V3 == B(<<10, 20, 30, 40>>)
 GenValues == {V1, V2, V3}
 GenProducers == {"basic-any", "basic-typed", "bind", "decode-cbor", "decode-json"}
 GenOps == {"read", "iter-partial", "encode-cbor", "encode-json", "copy-extend-basic", "copy-extend-bind", "embed-extend",
-           "assign-top-then-reset", "reset-reuse", "walk", "walk-subset", "transform", "store-load"}
+           "assign-top-then-reset", "reset-reuse", "walk", "walk-subset", "transform", "store-load", "stale-assembler"}
 Emit == Done => PrintT(ToJson([first |-> nodes[1], steps |-> hist, nodes |-> nodes]))
 =============================================================================
